@@ -26,11 +26,11 @@ def inputs_exhaustive(qlen: int, tlen: int, cap_q: int = 400, cap_t: int = 1500,
 
 
 def systematic_profile(name: str, kind_filter, raisers: bool, nq: int, nt: int, oracles, actions_mode='none',
-                       configs=None, inputs=None, use_sem=False, heavy=False, ctx_names=None, eol_probes=False, **kw) -> Profile:
+                       configs=None, inputs=None, use_sem=False, heavy=False, ctx_names=None, eol_probes=False, racts=None, **kw) -> Profile:
     def grams(rng: random.Random, tier: str):
         n = nq if tier == 'quick' else nt
         act = (lambda r, g, roots: corpus.attach_actions(r, g, actions_mode)) if actions_mode != 'none' else None
-        corpus.RACT_MODE[0] = 'void' if use_sem else 'mixed'
+        corpus.RACT_MODE[0] = racts or ('void' if use_sem else 'mixed')
         return corpus.systematic(rng, name, kind_filter, raisers, max_grammars=n, heavy=heavy, ctx_names=ctx_names, actions=act, eol_probes=eol_probes)
     return Profile(name, grams, configs or amr_configs(), inputs or inputs_exhaustive(4, 5), oracles, use_sem=use_sem, **kw)
 
